@@ -172,7 +172,7 @@ func r14_1(c *Ctx, r *Report) {
 
 func r14_2(c *Ctx, r *Report) {
 	const rule = "R14.2"
-	r.rule(rule, "Scan <-> layout agreement. The forward scan (findHolidaysForward) stops at the first record that does not start with the key, which is correct because the table is sorted by day (R14.1); the by-target lookup must not rely on adjacency of a target's records — in the built-in table a target's records are not always adjacent — so it has to examine every record.")
+	r.rule(rule, "Scan <-> layout agreement (data side). The table is sorted by day (R14.1), which is what a prefix scan that stops at the first non-matching record needs; a target's records are not always adjacent, so a by-target lookup has to examine every record — whether the lookups do is decided on the table itself by R14.6.")
 	data, ok := c.tabStr(r, rule, "HolidayUtil", "data")
 	if !ok {
 		return
@@ -190,51 +190,9 @@ func r14_2(c *Ctx, r *Report) {
 		idx++
 	}
 	nonContig = dedupeSorted(nonContig)
-	fn := c.Fn(r, rule, "HolidayUtil.findHolidaysBackward")
-	if fn == nil {
-		return
-	}
-	// does the by-target scan stop at the first mismatch? i.e. is there a loop exit controlled by a failed HasSuffix test
-	loops, _ := findLoops(fn)
-	stopsAtMismatch := false
-	for _, li := range loops {
-		for b := range li.body {
-			iff, ok := b.Instrs[len(b.Instrs)-1].(*ssa.If)
-			if !ok {
-				continue
-			}
-			call, ok := iff.Cond.(*ssa.Call)
-			if !ok || call.Common().StaticCallee() == nil || call.Common().StaticCallee().String() != "strings.HasSuffix" {
-				continue
-			}
-			if !li.body[b.Succs[1]] { // false edge leaves the loop
-				stopsAtMismatch = true
-			}
-		}
-	}
-	reads := false
-	for _, g := range c.eff.Of(fn).globalsRead() {
-		if g == "HolidayUtil.dataInUse" {
-			reads = true
-		}
-	}
-	construct := "HolidayUtil.findHolidaysBackward stops at the first record of another target"
-	if stopsAtMismatch && len(nonContig) > 0 {
-		r.bad(rule, construct, c.fnPos(fn), fmt.Sprintf("the scan stops at the first record with another target, but the records of targets %v are not adjacent in the table: part of the target's holidays is lost", headList(nonContig, 5)))
-	} else {
-		r.ok(rule, construct, c.fnPos(fn), fmt.Sprintf("stops at first mismatch: %v; targets with non-adjacent records: %d; reads the live table: %v", stopsAtMismatch, len(nonContig), reads))
-	}
-	if ff := c.Fn(r, rule, "HolidayUtil.findHolidaysForward"); ff != nil {
-		uses := false
-		for _, b := range ff.Blocks {
-			for _, ins := range b.Instrs {
-				if call, ok := ins.(*ssa.Call); ok && call.Common().StaticCallee() != nil && call.Common().StaticCallee().String() == "strings.HasPrefix" {
-					uses = true
-				}
-			}
-		}
-		r.check(uses, rule, "HolidayUtil.findHolidaysForward matches records by key prefix", c.fnPos(ff), "HasPrefix(record, key) on the sorted table")
-	}
+	// what the scans do with that layout is decided on the table itself by R14.6 (every key, every
+	// non-adjacent target); here only the fact about the data that makes the by-target scan delicate
+	r.ok(rule, "targets whose records are not adjacent in HolidayUtil.data", c.pos(c.tables.pos("HolidayUtil", "data")), fmt.Sprintf("%d targets have records that are not adjacent: %v (R14.6 follows the by-target lookup for each of them)", len(nonContig), headList(nonContig, 5)))
 }
 
 func dedupeSorted(xs []string) []string {
